@@ -65,6 +65,16 @@ impl MemoryArea {
         self.length
     }
 
+    /// Is `address` inside this area? Written so that it cannot overflow, wherever the area lies.
+    fn contains(&self, address: u64) -> bool {
+        address >= self.start && address - self.start < self.length
+    }
+
+    /// Does the whole range of `length` bytes starting at `address` lie inside this area?
+    fn contains_range(&self, address: u64, length: u64) -> bool {
+        self.contains(address) && length <= self.length - (address - self.start)
+    }
+
     pub fn to_string_ident(&self, i: usize) -> String {
         let mut s = String::new();
 
@@ -148,12 +158,12 @@ impl Axecutor {
             .iter()
             .find(|area| {
                 // Start address is in range of memory area
-                area.start <= address && address < area.start + area.length
+                area.contains(address)
             })
             .ok_or_else(|| self.collect_mem_error_hints(address, length, "Read".to_string()))?;
 
         // Make sure it's in range before doing the slice access below
-        if address + length > area.start + area.length {
+        if !area.contains_range(address, length) {
             return Err(self.collect_mem_error_hints(address, length, "Read".to_string()));
         }
 
@@ -227,7 +237,7 @@ impl Axecutor {
             .state
             .memory
             .iter()
-            .find(|area| area.start <= address && address < area.start + area.length)
+            .find(|area| area.contains(address))
             .ok_or_else(|| {
                 self.collect_mem_error_hints(address, 15, "Read executable".to_string())
             })?;
@@ -258,10 +268,7 @@ impl Axecutor {
     fn collect_mem_error_hints(&self, address: u64, length: u64, operation: String) -> AxError {
         // check if start or end address is within any of the memory areas
         for area in &self.state.memory {
-            if address >= area.start
-                && address < area.start + area.length
-                && address + length > area.start + area.length
-            {
+            if area.contains(address) && !area.contains_range(address, length) {
                 return AxError::from(format!(
                     "Memory {} of length {} at address {:#x} over end of memory area {} (start {:#x}, length {})",
                     operation.to_lowercase(),
@@ -278,7 +285,13 @@ impl Axecutor {
         }
 
         for area in &self.state.memory {
-            if address + length > area.start && address + length <= area.start + area.length {
+            // the access starts before the area, but its last byte lies inside
+            if length > 0
+                && address < area.start
+                && address
+                    .checked_add(length - 1)
+                    .map_or(false, |last| area.contains(last))
+            {
                 return AxError::from(format!(
                     "Memory {} of length {} at address {:#x} before start of memory area {} (start {:#x}, length {})",
                     operation.to_lowercase(),
@@ -368,7 +381,7 @@ impl Axecutor {
             .state
             .memory
             .iter_mut()
-            .find(|area| area.start <= address && address < area.start + area.length)
+            .find(|area| area.contains(address))
         {
             Some(area) => area,
             None => {
@@ -381,7 +394,7 @@ impl Axecutor {
         };
 
         // Range check before doing the copy_from_slice below
-        if address + data.len() as u64 > area.start + area.length {
+        if !area.contains_range(address, data.len() as u64) {
             return Err(self.collect_mem_error_hints(
                 address,
                 data.len() as u64,
